@@ -888,7 +888,12 @@ func (p *RPCCompiler) resolveUnderlyingList(msg protoref.Message, fieldName stri
 		nestingLevel++
 	}
 
-	listFieldValue := msg.Get(msg.Descriptor().Fields().ByName(protoref.Name(fieldName[nestingLevel:])))
+	listFieldDesc := msg.Descriptor().Fields().ByName(protoref.Name(fieldName[nestingLevel:]))
+	if listFieldDesc == nil {
+		return nil
+	}
+
+	listFieldValue := msg.Get(listFieldDesc)
 	if !listFieldValue.IsValid() {
 		return nil
 	}
